@@ -93,6 +93,35 @@ def same(a, b):
     return True
 
 
+BIG_INTS = [2**64, 2**64 + 1, 2**70, 2**70 + 1, -2**63 - 1, -2**64, 10**30 + 7]   # outside every 64-bit JSON integer range
+
+
+def plain(x):
+    """a message as plain data with every scalar tagged by its exact type: 2**70 and float(2**70) compare equal in
+    Python, but one is not the other's round trip"""
+    if hasattr(x, "model_dump"):
+        return plain(x.model_dump())
+    if dataclasses.is_dataclass(x) and not isinstance(x, type):
+        return (type(x).__name__, plain(dataclasses.asdict(x)))
+    if isinstance(x, dict):
+        return ("dict", sorted(((plain(k), plain(v)) for k, v in x.items()), key=repr))
+    if isinstance(x, (list, tuple)):
+        return ("seq", [plain(v) for v in x])
+    if isinstance(x, (set, frozenset)):
+        return ("set", sorted((plain(v) for v in x), key=repr))
+    return (type(x).__name__, x)
+
+
+def has_big_int(x):
+    if hasattr(x, "model_dump"):
+        return has_big_int(x.model_dump())
+    if isinstance(x, dict):
+        return any(has_big_int(k) or has_big_int(v) for k, v in x.items())
+    if isinstance(x, (list, tuple, set, frozenset)):
+        return any(has_big_int(v) for v in x)
+    return isinstance(x, int) and not isinstance(x, bool) and not (-2**63 <= x < 2**64)
+
+
 def in_domain(m):
     if not dataclasses.is_dataclass(m):
         return True
@@ -207,8 +236,10 @@ def envelope_part(ctx, res):
             outs = {str(j): "int" for j in range(rng.choice([1, 1, 2, 12]))}
             d = TaskDefinition(entrypoint=rstr(), func=rng.choice([None, TaskDefinition.func_enc(len)]), environment=[rstr() for _ in range(rng.randrange(3))],
                                input_schema={rstr(): "int" for _ in range(rng.randrange(3))}, output_schema=outs, needs_gpu=rng.random() < 0.3)
-            tasks[f"t{i}"] = TaskInstance(definition=d, static_input_kw={rstr(): rng.choice([1, "x", None, [1, 2], {"a": 1.5}]) for _ in range(rng.randrange(3))},
-                                          static_input_ps={str(j): rng.choice([0, "s", 2**40, None]) for j in range(rng.randrange(3))})
+            big = rng.random() < 0.3
+            tasks[f"t{i}"] = TaskInstance(definition=d, static_input_kw={rstr(): rng.choice([1, "x", None, [1, 2], {"a": 1.5}] + ([rng.choice(BIG_INTS), {"n": [rng.choice(BIG_INTS)]}] if big else []))
+                                                                         for _ in range(rng.randrange(3))},
+                                          static_input_ps={str(j): rng.choice([0, "s", 2**40, None, 2**63, 2**64 - 1] + (BIG_INTS if big else [])) for j in range(rng.randrange(3))})
         edges = []
         names = list(tasks)
         for _ in range(rng.randrange(0, 5)):
@@ -295,14 +326,20 @@ def envelope_part(ctx, res):
             req = gen_request()
             res.evaluations += 1
             res.count("gateway:" + type(req).__name__)
-            case = {"part": "gateway", "request": repr(req)[:400]}
+            case = {"part": "gateway", "request": repr(req)[:1500]}
             seen.clear()
+            outside = has_big_int(req)
+            if outside:
+                res.count("gateway:integer-outside-64-bit")
             try:
                 got = client.request_response(req, "fake://")
-                ok = seen["parsed"] == req and got == seen["resp"]
+                ok = seen["parsed"] == req and plain(seen["parsed"]) == plain(req) and got == seen["resp"] and plain(got) == plain(seen["resp"])
                 what = f"server parsed {seen.get('parsed')!r}, client got {got!r} for response {seen.get('resp')!r}"
             except Exception as e:
-                ok, what = False, f"request_response raised {e!r}"
+                # a value outside the admitted domain may be refused when encoding (nothing was sent yet), never altered
+                ok, what = (outside and "parsed" not in seen), f"request_response raised {e!r}"
+                if ok:
+                    res.count("gateway:refused-at-encoding")
             if not ok:
                 res.fail("gateway-envelope-roundtrip", what[:600], case)
             res.nontrivial_keys.add(("gw", repr(req)[:200]))
@@ -310,6 +347,40 @@ def envelope_part(ctx, res):
                 res.samples.append(case)
     finally:
         client.threading = threading
+
+
+def jobinstance_file_roundtrip(ji):
+    """the job instance as the gateway hands it to a local job (router._spawn_local writes /tmp/<job_id>.json, the
+    process launch is stubbed) and as the benchmark entrypoint reads it (benchmarks.__main__.get_job).  Falls back to
+    the two library calls those functions make when either of them is no longer there under that name."""
+    import os
+    import orjson
+    from cascade.low.core import JobInstance
+    try:
+        import cascade.gateway.router as router
+        import cascade.gateway.api as gapi
+        from cascade.benchmarks.__main__ import get_job
+        spawn = router._spawn_local
+    except Exception:
+        return JobInstance(**orjson.loads(orjson.dumps(ji.dict()))), "library-calls"
+    job_id = f"verif-c17-{os.getpid()}"
+    path = f"/tmp/{job_id}.json"
+    launched = []
+    real_popen = router.subprocess.Popen
+    router.subprocess.Popen = lambda *a, **k: launched.append(a)
+    try:
+        spec = gapi.JobSpec(benchmark_name=None, envvars={}, job_instance=ji, workers_per_host=1, hosts=1, use_slurm=False)
+        spawn(spec, "tcp://none:0", job_id)
+        args = [str(x) for x in launched[0][0]] if launched else []
+        if "--instance" in args:
+            path = args[args.index("--instance") + 1]
+        return get_job(None, path), "gateway-writer+entrypoint-reader"
+    finally:
+        router.subprocess.Popen = real_popen
+        try:
+            os.unlink(path)
+        except OSError:
+            pass
 
 
 def pickle_part(ctx, res):
@@ -393,8 +464,10 @@ def pickle_part(ctx, res):
             outs = {str(j): rng.choice(["int", "str"]) for j in range(rng.choice([1, 2, 3, 12]))}
             d = TaskDefinition(entrypoint=rs(), func=rng.choice([None, TaskDefinition.func_enc(max)]), environment=[rs() for _ in range(rng.randrange(3))],
                                input_schema={rs(): "int" for _ in range(rng.randrange(3))}, output_schema=outs, needs_gpu=rng.random() < 0.3)
-            tasks[f"t{k}"] = TaskInstance(definition=d, static_input_kw={rs(): rng.choice([1, "x", None, [1, [2]], {"a": 1.5}, True]) for _ in range(rng.randrange(3))},
-                                          static_input_ps={str(j): rng.choice([0, "s", 2**40, None, -3]) for j in range(rng.randrange(3))})
+            big = rng.random() < 0.3
+            tasks[f"t{k}"] = TaskInstance(definition=d, static_input_kw={rs(): rng.choice([1, "x", None, [1, [2]], {"a": 1.5}, True] + ([rng.choice(BIG_INTS), [[rng.choice(BIG_INTS)]]] if big else []))
+                                                                         for _ in range(rng.randrange(3))},
+                                          static_input_ps={str(j): rng.choice([0, "s", 2**40, None, -3, 2**64 - 1] + (BIG_INTS if big else [])) for j in range(rng.randrange(3))})
         names = list(tasks)
         edges = []
         for _ in range(rng.randrange(6)):
@@ -406,13 +479,17 @@ def pickle_part(ctx, res):
                          serdes={rs(): (rs(), rs())} if rng.random() < 0.3 else {})
         res.evaluations += 1
         res.count("json:JobInstance")
+        outside = has_big_int(ji)
+        wrote = False
         try:
-            back = JobInstance(**orjson.loads(orjson.dumps(ji.dict())))
-            ok = back == ji
+            back, how = jobinstance_file_roundtrip(ji)
+            wrote = True
+            res.count("json:JobInstance:" + how)
+            ok = back == ji and plain(back) == plain(ji)
         except Exception as e:
-            ok, back = False, repr(e)
+            ok, back = (outside and not wrote), repr(e)      # refused when encoding: admitted for values outside the domain
         if not ok:
-            res.fail("jobinstance-json-roundtrip", f"JobInstance(**loads(dumps(ji.dict()))) differs: {str(back)[:300]}", {"part": "jobinstance", "repr": repr(ji)[:1500]})
+            res.fail("jobinstance-json-roundtrip", f"job instance written by the gateway and read by the benchmark entrypoint differs: {str(back)[:300]}", {"part": "jobinstance", "repr": repr(ji)[:1500]})
         res.nontrivial_keys.add(("ji", repr(ji)[:300]))
 
 
